@@ -893,8 +893,13 @@ def _check_schedule_preconditions(check, an: Analysis):
     check.floor('L3', 8, 'dated schedule sites and their callers')
     # the loop's own last line of defence
     schedule = an.method(LOOP, 'schedule')
-    asserts = [ast.unparse(n.test) for n in ast.walk(schedule.node)
-               if isinstance(n, ast.Assert)]
+    asserts = set()
+    for path in an.paths(an.callee(LOOP, 'schedule')):
+        for index, event in enumerate(path.events):
+            if event.kind == 'assert' and isinstance(event.node, ast.Assert):
+                # (in schedule itself or in a private stage of it, in schedule's terms)
+                asserts.add(rules.value_text(path, index, event.node.test))
+    asserts = sorted(asserts)
     check.instance('L3', 'Loop.schedule:asserts', any(equal_bool(a, 'delay > 0')
                                                        for a in asserts) and
                    any(equal_bool(a, 'at > self.time') for a in asserts),
